@@ -5,12 +5,24 @@ Open Scope N_scope.
 Lemma sk_mem_app : forall s l1 l2, sk_mem s (l1 ++ l2) = sk_mem s l1 || sk_mem s l2.
 Proof. intros; unfold sk_mem; apply existsb_app. Qed.
 
-Lemma sk_mem_push : forall s lo hi l,
+Lemma sk_mem_append : forall s lo hi l lb, sk_wf_from lb l -> lo <= hi ->
+  sk_mem s (sk_append lo hi l) = sk_mem s l || ((lo <=? s) && (s <=? hi)).
+Proof.
+  intros s lo hi l; induction l as [|[a b] l IH]; intros lb Hwf Hlh.
+  - cbn. unfold in_rng; cbn. now rewrite orb_false_r.
+  - cbn in Hwf. destruct Hwf as [H1 [H2 H3]]. cbn [sk_append]. destruct l as [|x l].
+    + destruct (b + 1 =? lo) eqn:E; unfold sk_mem, in_rng; cbn;
+        destruct (N.leb_spec a s), (N.leb_spec s hi), (N.leb_spec s b), (N.leb_spec lo s); cbn; try reflexivity; lia.
+    + specialize (IH _ H3 Hlh). unfold sk_mem in *. cbn [existsb] in *. rewrite IH.
+      destruct (in_rng s (a, b)), (in_rng s x), (existsb (in_rng s) l), ((lo <=? s) && (s <=? hi)); reflexivity.
+Qed.
+
+Lemma sk_mem_push : forall s lo hi l lb, sk_wf_from lb l ->
   sk_mem s (sk_push lo hi l) = sk_mem s l || ((lo <=? s) && (s <=? hi)).
 Proof.
-  intros; unfold sk_push. destruct (hi <? lo) eqn:E.
+  intros s lo hi l lb Hwf; unfold sk_push. destruct (hi <? lo) eqn:E.
   - destruct ((lo <=? s) && (s <=? hi)) eqn:F; [lia | now rewrite orb_false_r].
-  - rewrite sk_mem_app. cbn. unfold in_rng; cbn. now rewrite orb_false_r.
+  - eapply sk_mem_append; [eassumption | lia].
 Qed.
 
 Lemma sk_mem_cut : forall s lo hi r,
@@ -52,10 +64,22 @@ Proof. intros n n' l H Hle a b Hin. specialize (H _ _ Hin). lia. Qed.
 Lemma sk_below_app : forall n l1 l2, sk_below n l1 -> sk_below n l2 -> sk_below n (l1 ++ l2).
 Proof. intros n l1 l2 H1 H2 a b Hin. apply in_app_or in Hin as [Hin|Hin]; eauto. Qed.
 
+Lemma in_sk_append : forall lo hi l a b, In (a, b) (sk_append lo hi l) ->
+  In (a, b) l \/ b = hi.
+Proof.
+  intros lo hi l; induction l as [|[x y] l IH]; intros a b Hin.
+  - cbn in Hin. destruct Hin as [E|[]]. inversion E; auto.
+  - cbn [sk_append] in Hin. destruct l as [|z l].
+    + destruct (y + 1 =? lo); cbn in Hin.
+      * destruct Hin as [E|[]]. inversion E; auto.
+      * destruct Hin as [E|[E|[]]]; [left; left; assumption | inversion E; auto].
+    + destruct Hin as [E|Hin]; [left; left; assumption|]. destruct (IH _ _ Hin) as [H|H]; [left; right; assumption | now right].
+Qed.
+
 Lemma sk_below_push : forall n lo hi l, sk_below n l -> hi < n -> sk_below n (sk_push lo hi l).
 Proof.
   intros n lo hi l H Hh. unfold sk_push. destruct (hi <? lo); [assumption|].
-  apply sk_below_app; [assumption|]. intros a b [E|[]]. inversion E; subst; assumption.
+  intros a b Hin. destruct (in_sk_append _ _ _ _ _ Hin) as [Hin'| ->]; [eapply H; eassumption | assumption].
 Qed.
 
 Lemma in_cut : forall lo hi r a b, In (a, b) (cut lo hi r) -> fst r <= a /\ b <= snd r /\ a <= b \/ (a, b) = r.
@@ -87,10 +111,23 @@ Proof.
     + specialize (Hb a b (or_introl eq_refl)). lia.
 Qed.
 
+Lemma sk_wf_from_append : forall l lb lo hi,
+  sk_wf_from lb l -> sk_below lo l -> lb <= lo -> lo <= hi -> sk_wf_from lb (sk_append lo hi l).
+Proof.
+  induction l as [|[a b] l IH]; intros lb lo hi Hwf Hb Hlb Hlh.
+  - cbn. repeat split; assumption.
+  - cbn in Hwf. destruct Hwf as [H1 [H2 H3]]. pose proof (Hb a b (or_introl eq_refl)) as Hab.
+    cbn [sk_append]. destruct l as [|z l].
+    + destruct (b + 1 =? lo) eqn:E; cbn; repeat split; try assumption; lia.
+    + cbn [sk_wf_from]. repeat split; [assumption | assumption |].
+      apply IH; [assumption | | lia | assumption].
+      intros x y Hin. apply (Hb x y). now right.
+Qed.
+
 Lemma sk_wf_from_push : forall l lb lo hi,
   sk_wf_from lb l -> sk_below lo l -> lb <= lo -> sk_wf_from lb (sk_push lo hi l).
 Proof.
-  intros. unfold sk_push. destruct (hi <? lo) eqn:E; [assumption|]. apply sk_wf_from_app; try assumption. lia.
+  intros. unfold sk_push. destruct (hi <? lo) eqn:E; [assumption|]. apply sk_wf_from_append; try assumption. lia.
 Qed.
 
 Lemma sk_wf_from_diff : forall lo hi l lb, sk_wf_from lb l -> sk_wf_from lb (sk_diff lo hi l).
@@ -123,3 +160,52 @@ Proof. intros l lb s H1 H2. destruct (sk_oldest_min _ _ _ H1 H2). lia. Qed.
 
 Lemma sk_oldest_zero : forall l lb, sk_wf_from lb l -> 0 < lb -> sk_oldest l = 0 -> l = [].
 Proof. intros [|[a b] l] lb; cbn; [reflexivity|]. intros [H1 _] H2 H3. lia. Qed.
+
+(* ---------- CompactList: abandoning the elements that are old enough ---------- *)
+Lemma sk_mem_split : forall s bits l,
+  sk_mem s l = sk_mem s (fst (sk_split bits l)) || sk_mem s (snd (sk_split bits l)).
+Proof.
+  intros s bits l; revert bits; induction l as [|r l IH]; intros bits; [reflexivity|].
+  cbn [sk_split]. specialize (IH (tl bits)). unfold sk_mem in *. destruct (hd false bits); cbn [fst snd existsb]; rewrite IH;
+    destruct (in_rng s r), (existsb (in_rng s) (fst (sk_split (tl bits) l))), (existsb (in_rng s) (snd (sk_split (tl bits) l))); reflexivity.
+Qed.
+
+Lemma sk_split_in : forall x bits l,
+  (In x (fst (sk_split bits l)) -> In x l) /\ (In x (snd (sk_split bits l)) -> In x l).
+Proof.
+  intros x bits l; revert bits; induction l as [|r l IH]; intros bits; [cbn; tauto|].
+  cbn [sk_split]. destruct (IH (tl bits)) as [I1 I2]. destruct (hd false bits); cbn [fst snd]; split; intros H;
+    try (destruct H as [H|H]; [now left | right]); auto; right; auto.
+Qed.
+
+Lemma sk_below_split : forall n bits l, sk_below n l ->
+  sk_below n (fst (sk_split bits l)) /\ sk_below n (snd (sk_split bits l)).
+Proof.
+  intros n bits l H.
+  split; intros a b Hin; apply (H a b); destruct (sk_split_in (a, b) bits l) as [I1 I2]; auto.
+Qed.
+
+Lemma sk_wf_from_split : forall bits l lb, sk_wf_from lb l ->
+  sk_wf_from lb (fst (sk_split bits l)) /\ sk_wf_from lb (snd (sk_split bits l)).
+Proof.
+  intros bits l; revert bits; induction l as [|[a b] l IH]; intros bits lb Hwf; [cbn; tauto|].
+  cbn in Hwf. destruct Hwf as [H1 [H2 H3]]. destruct (IH (tl bits) _ H3) as [I1 I2].
+  cbn [sk_split]. destruct (hd false bits); cbn [fst snd sk_wf_from]; split; repeat split; try assumption;
+    eapply sk_wf_from_weaken; try eassumption; lia.
+Qed.
+
+(* an abandoned sequence is no longer in the skipped list: the elements are pairwise disjoint *)
+Lemma sk_split_disjoint : forall s bits l lb, sk_wf_from lb l ->
+  sk_mem s (snd (sk_split bits l)) = true -> sk_mem s (fst (sk_split bits l)) = false.
+Proof.
+  intros s bits l; revert bits; induction l as [|[a b] l IH]; intros bits lb Hwf Hm; [reflexivity|].
+  cbn in Hwf. destruct Hwf as [H1 [H2 H3]]. destruct (sk_wf_from_split (tl bits) _ _ H3) as [W1 W2].
+  cbn [sk_split] in *. destruct (hd false bits); cbn [fst snd] in *.
+  - unfold sk_mem in Hm; cbn [existsb] in Hm. apply orb_true_iff in Hm as [Hm|Hm].
+    + destruct (sk_mem s (fst (sk_split (tl bits) l))) eqn:E; [|reflexivity].
+      pose proof (sk_wf_from_lb _ _ _ W1 E). unfold in_rng in Hm; cbn in Hm. lia.
+    + eapply IH; eassumption.
+  - pose proof (sk_wf_from_lb _ _ _ W2 Hm). unfold sk_mem; cbn [existsb]. apply orb_false_iff. split.
+    + unfold in_rng; cbn. lia.
+    + eapply IH; eassumption.
+Qed.
